@@ -524,7 +524,7 @@ where
         std::thread::scope(|sc| {
             let ta = sc.spawn(move || api_read_gated(fs, ino, h, a.plus, a.size, a.off, a.err_at, Some((etx, grx))));
             let t0 = std::time::Instant::now();
-            while t0.elapsed() < Duration::from_millis(500) {
+            while t0.elapsed() < Duration::from_secs(60) {
                 if erx.try_recv().is_ok() || ta.is_finished() {
                     break;
                 }
